@@ -179,7 +179,7 @@ pub fn prop() -> HistProp {
         weights: w,
         min_ops: 8,
         max_ops: (45, 100),
-        cases: (12_000, 400_000),
+        cases: (24_000, 400_000),
         make: || Box::new(Mon::default()),
         rule: "histories with many trades and liquidations (full and partial) per block on 1-2 vAMMs (4 in 9 with a per-block band, so that closes can turn partial), few block boundaries. The harness keeps, per (vAMM, block), the set A of traders with a successful OpenPosition / partial ClosePosition in that block whose position still exists, the traders liquidated in it and whether a liquidation succeeded. Open/Close by a member of A after a liquidation in the same block must fail and leave every observable unchanged. For bystanders (not in A, not liquidated in the block) in a block with a liquidation, and for everybody in the block after one, on vAMMs without a band the same call is also executed on a what-if twin of the same pre-state one block height later at the same block time: if it succeeds there it must succeed here. Traders liquidated in the block are not asserted either way. Non-trivial: a history with >= 1 restricted attempt and >= 1 bystander attempt in a liquidation block. Distinct by digest of (cfg, ops).",
         assumptions: &["with no fluctuation limit configured nothing but the restriction rule depends on the block height, so a differing outcome of the twin is attributable to it; on vAMMs with a band the bystander clause is not asserted (counted)"],
